@@ -177,6 +177,10 @@ class Hist(Part):
             m, n = case["m"], case["n"]
             close = rng.random() < 0.2
             pools = [absx.monotone_map(rng, rng.randint(3, 6), style="close" if close else None) for _ in range(m)]
+            if rng.random() < 0.25:
+                for pl in pools:                     # infinite costs shared by several offers
+                    if rng.random() < 0.6:
+                        pl.append(math.inf)
             fpool = absx.monotone_map(rng, 5) + [math.inf]
             mstyle_r = rng.randrange(3)
             ops = []
